@@ -128,7 +128,14 @@ func ZZ_C10_RedisDiff() {
 	}
 	drained := true
 	for step := 0; step < K; step++ {
-		op := zzrt.Choice(5)
+		op := zzrt.Choice(6)
+		if op == 5 {
+			// time passes (whole seconds: the redis queue stores seconds); with an in-flight
+			// expiry every later hand-out / replay rewrites the entries with a new deadline
+			zzrt.ClockAdvance(time.Duration(1+zzrt.Choice(2)) * time.Second)
+			now = time.Now()
+			continue
+		}
 		if !drained && op != 0 {
 			// after a resume the only thing that can precede the drain is a delivery (Add)
 			drain()
@@ -232,6 +239,9 @@ func ZZ_C10_RedisAddBeforeDrain() {
 	}
 	qm.Close()
 	qr.Close()
+	// the client is away for 0..2 s (with an in-flight expiry the replay then rewrites the
+	// entries with a new deadline)
+	zzrt.ClockAdvance(time.Duration(zzrt.Choice(3)) * time.Second)
 	zzrt.Assert(qm.Init(opts(false, ntM)) == nil && qr.Init(opts(false, ntR)) == nil, "resume-succeeds")
 	// the delivery that races with the replay
 	nq := zzrt.Byte()
@@ -260,5 +270,21 @@ func ZZ_C10_RedisAddBeforeDrain() {
 	}
 	zzrt.Assert(ntM.queued == ntR.queued && ntM.inflight == ntR.inflight, "same-counters")
 	zzrt.Assert(st.ListLen("queue:c1") <= max && st.ListLen("queue:c1") == ntR.queued, "redis-list-matches-counter-and-bound")
+	// the client acknowledges what was replayed (some of it)
+	for i := 0; i < h; i++ {
+		if zzrt.Choice(2) == 1 {
+			em, er := qm.Remove(packets.PacketID(i+1)), qr.Remove(packets.PacketID(i+1))
+			zzrt.Assert((em == nil) == (er == nil), "remove-same-error")
+		}
+	}
+	zzrt.Assert(ntM.queued == ntR.queued && ntM.inflight == ntR.inflight, "same-counters-after-acknowledgements")
+	zzrt.Assert(st.ListLen("queue:c1") == ntR.queued, "redis-list-matches-counter-after-acknowledgements")
+	// what is handed out next is the same
+	if ntM.queued-ntM.inflight > 0 {
+		am, e1 := qm.Read([]packets.PacketID{200, 201, 202})
+		ar, e2 := qr.Read([]packets.PacketID{200, 201, 202})
+		zzrt.Assert((e1 == nil) == (e2 == nil), "read-after-resume-same-error")
+		zzDiffElems(am, ar, "read-after-resume")
+	}
 	zzrt.Cover("add-before-drain")
 }
